@@ -154,6 +154,19 @@ pub fn run(args: &Args) {
                     m.out(p, v);
                     out.ev(json!({"ev":"out","port":p,"val":v}));
                 }
+                3 if r.chance(1, 4) => {
+                    // the host offers a file that is rejected (other model, truncated, not a snapshot at all): nothing of the
+                    // memory map may change, a locked latch stays locked
+                    use rustzx_core::host::Snapshot;
+                    let kind = r.below(4);
+                    let res = match kind {
+                        0 => m.emu.load_snapshot(Snapshot::Sna(VAsset::new(vec![0u8; if m128 { 49179 } else { 131103 }]))),
+                        1 => m.emu.load_snapshot(Snapshot::Sna(VAsset::new(vec![0u8; 100]))),
+                        2 => m.emu.load_snapshot(Snapshot::Szx(VAsset::new(b"ZXSX\x01\x04\x01\x00".to_vec()))),
+                        _ => m.emu.load_snapshot(Snapshot::Szx(VAsset::new(vec![b'Z', b'X', b'S', b'T', 1, 4, if m128 { 1 } else { 2 }, 0]))),
+                    };
+                    out.ev(json!({"ev":"badload","kind":kind,"accepted":res.is_ok()}));
+                }
                 3 => {
                     let (p, v) = (other_port(&mut r), r.u8());
                     m.out(p, v);
